@@ -8,8 +8,10 @@ MCReqs == {"r0", "r1", "rx", "rz"}
 MCPieceOfReq == [rq \in MCReqs |-> CASE rq = "r0" -> 0 [] rq = "r1" -> 1 [] rq = "rx" -> 0 [] rq = "rz" -> 9]
 MCServable == [rq \in MCReqs |-> rq \in {"r0", "r1"}]
 \* simulation only: also rh = piece 0, offset 0, a length of 2^30 (never servable)
-MCReqs5 == MCReqs \cup {"rh"}
-MCPieceOfReq5 == [rq \in MCReqs5 |-> IF rq = "rh" THEN 0 ELSE MCPieceOfReq[rq]]
+\* and rw = an index of 2^32 / piece size (its byte offset wraps to 0 in 32-bit arithmetic), rb = piece 1 with an offset of 2^32 - 1
+\* and a length of 1 (wraps into piece 0): beyond the torrent, never servable
+MCReqs5 == MCReqs \cup {"rh", "rw", "rb"}
+MCPieceOfReq5 == [rq \in MCReqs5 |-> IF rq = "rh" THEN 0 ELSE IF rq \in {"rw", "rb"} THEN 9 ELSE MCPieceOfReq[rq]]
 MCServable5 == [rq \in MCReqs5 |-> rq \in {"r0", "r1"}]
 MCInit == Init /\ hist = <<>>
 MCNext == Next /\ UNCHANGED hist
